@@ -481,6 +481,33 @@ def Src.call (s : Src α) : Except Exc (Strm α) :=
     else s.flow
   | none => s.flow
 
+/-! ### a `Source` object that is called again -/
+
+/-- the flow the first element gives when `Source.__call__` takes it for the `(k+1)`-th time: a generator
+function is called again, a container is iterated again, a one-pass iterator is exhausted after the first
+(drained) use -/
+def Src.flowAt (s : Src α) (k : Nat) : Except Exc (Strm α) :=
+  if s.first.call then s.first.genDen
+  else if s.first.onePass then
+    (if k = 0 then .ok ⟨s.first.iterDen.vals.drop s.consumed, s.first.iterDen.term⟩ else .ok .nil)
+  else .ok s.first.iterDen
+
+/-- the flows that entered the tail in the first `k` calls -/
+def Src.pastFlows (s : Src α) (k : Nat) : List (Strm α) :=
+  (List.range k).filterMap (fun i => match s.flowAt i with | .ok fl => some fl | .error _ => none)
+
+/-- the `(k+1)`-th `Source.__call__()` on one object (the earlier calls were drained and did not raise):
+the tail is a sequence object that is run again -/
+def Src.callAt (s : Src α) (k : Nat) : Except Exc (Strm α) :=
+  match s.tail with
+  | some t =>
+    if t.nargs > 0 then
+      match s.flowAt k with
+      | .error err => .error err
+      | .ok xs => t.rerun (s.pastFlows k) xs
+    else s.flowAt k
+  | none => s.flowAt k
+
 /-! ## specification side: the documented stream transformation of one element -/
 
 /-- the element can be converted: it has a callable `run`, is callable, or has callable `fill`
@@ -546,6 +573,20 @@ inductive Spec where
   /-- a one-pass iterator object over `flow` of class `cls` (generator object, `iter(list)`, `map`, `islice`)
   that raises `term` after its values (first element of a `Source`) -/
   | iterObj (cls : String) (flow : List Value) (term : Option Exc)
+  /-- a plain function that returns `None` for odd integer data and the value itself otherwise (`toNone`), or
+  raises the given exception when the data is 13 -/
+  | callX (toNone : Bool) (e : Exc)
+  /-- `lena.flow.Filter(pred)` whose predicate raises `e` when the data is 13 and is true otherwise -/
+  | filterX (e : Exc)
+  /-- a fill/compute class whose `fill` raises `e` when the data is 13 -/
+  | synRaise (e : Exc)
+  /-- an object that is callable without arguments (a generator over `callFlow`) *and* iterable (over `iterFlow`) -/
+  | both (callFlow iterFlow : List Value)
+  /-- `lena.core.Run(obj, run="alt")` for an object with (or without) `run` and with `alt` absent / not callable /
+  a generator method; the two methods put different marks -/
+  | runAlt (hasRun : Bool) (alt : Attr)
+  /-- the class `lena.flow.Reverse` itself instead of an instance -/
+  | classObj
   /-- an object with none of the interfaces (`5`, `"abc"`, `None`) -/
   | junk
   /-- `lena.meta.SetContext(...)`: an element with `_has_no_data` -/
@@ -691,6 +732,45 @@ def Spec.toElement : Spec → Except Exc (Element Value)
                                       ++ s!"_q{attrNum rq}_i{attrNum fi}_s{attrNum rs}_a{attrNum al}")) }
   | .iterObj cls flow term =>
     .ok { hasIter := true, onePass := true, iterDen := ⟨flow, term⟩, asValue := some (objValue cls) }
+  | .callX toNone e =>
+    .ok { call := true, genDen := .error .typeError, asValue := some (objValue "function")
+          callDen := fun v =>
+            match getData v with
+            | .int i =>
+              if toNone then (if i % 2 = 1 then .ok (objValue "NoneType") else .ok v)
+              else (if i = 13 then .error e else .ok v)
+            | _ => .ok v }
+  | .filterX e =>
+    let pred : Value → Except Exc Bool := fun v =>
+      match getData v with
+      | .int i => if i = 13 then .error e else .ok true
+      | _ => .ok true
+    .ok { run := .method, runDen := fun s => .ok (filterS pred s), asValue := some (objValue "Filter")
+          fillInto := .method
+          fillIntoDen := fun v => match pred v with
+            | .error err => .error err
+            | .ok true => .ok [v]
+            | .ok false => .ok [] }
+  | .synRaise e =>
+    .ok { fill := .method, compute := .method, asValue := some (objValue "SynRaise")
+          fillDen := fun _ v =>
+            match getData v with
+            | .int i => if i = 13 then .error e else .ok ()
+            | _ => .ok ()
+          computeDen := fun h => .ok (.ofList [.list [.str "fcr", .list h]]) }
+  | .both callFlow iterFlow =>
+    .ok { call := true, hasIter := true, callDen := fun _ => .error .typeError
+          genDen := .ok (.ofList callFlow), iterDen := .ofList iterFlow, asValue := some (objValue "Both") }
+  | .runAlt _ alt =>
+    -- `Run(el, run="alt")`: `callable(getattr(el, "alt", None))` → `self.run = el.alt` (never `el.run`)
+    if alt.callable then
+      .ok { run := .method, runDen := fun s => .ok (mapS (fun v => .ok (.list [.str "alt", v])) s)
+            asValue := some (objValue "Run") }
+    else .error .lenaTypeError
+  | .classObj =>
+    -- `hasattr(cls, "run") and callable(cls.run)`: used as it is; `cls.run(flow)` lacks an argument
+    .ok { run := .method, call := true, runDen := fun _ => .error .typeError
+          callDen := fun _ => .error .typeError, genDen := .error .typeError, asValue := some (objValue "type") }
   | .junk => .ok { asValue := some (objValue "NoneType") }
   | .setContext => .ok { hasNoData := true, asValue := some (objValue "SetContext") }
   | .gen flow => .ok { call := true, callDen := fun _ => .error .typeError, genDen := .ok (.ofList flow)
@@ -759,6 +839,12 @@ def Spec.flat : Spec → List Spec
   | .syn r c f p n => [.syn r c f p n]
   | .synX r c f p n q i s a => [.synX r c f p n q i s a]
   | .iterObj c f t => [.iterObj c f t]
+  | .callX a b => [.callX a b]
+  | .filterX e => [.filterX e]
+  | .synRaise e => [.synRaise e]
+  | .both a b => [.both a b]
+  | .runAlt a b => [.runAlt a b]
+  | .classObj => [.classObj]
   | .junk => [.junk]
   | .setContext => [.setContext]
   | .gen f => [.gen f]
